@@ -51,10 +51,14 @@ def configs(ctx):
     src += w3[::(3 if quick else 1)]
     for w in src:
         cfg = dict(w)
-        if w["tag"].startswith("ACC/"):
+        if w["tag"].startswith(("ACC/", "EW4/")):
             cfg["extents"] = w["extents"][:1]
         else:
             cfg["extents"] = shrink(w, max_cells)
+        # never more than 2^13 patterns per extent vector
+        cfg["extents"] = [e for e in cfg["extents"] if X.n_cells(w["spec"], e) <= 13]
+        if not cfg["extents"]:
+            continue
         work.append(cfg)
     for w in c04.configs(Q):
         if "partitioning" in w["spec"]["mapping"]:
